@@ -429,15 +429,37 @@ def replay_case(case, values, rec):
     if case.get("part") == "A":
         bad, out = replay_glexsort(case["keys"], case["graded"], case["reverse"])
         return [H.Issue(rec.get("kind", "order"), "glexsort", out)] if bad else []
+    if case.get("part") == "Cseq":
+        r = run_sequence(case)
+        return [H.Issue(c["kind"], c["op"], c["detail"]) for c in r["confirmed"]]
     if case.get("part") == "C":
         r = glexindex_membership(case["cfg"])
         return [H.Issue(rec.get("kind", "membership"), "glexindex", r.get("detail", ""))] if r["status"] == "counterexample" else []
     return H.concrete_run_poisoned(body, case, values, None)
 
 
+def run_sequence(case: Dict) -> Dict:
+    t0 = time.time()
+    confirmed = []
+    log = []
+    nq = 0
+    for cfg in case["cfgs"]:
+        r = glexindex_membership(cfg)
+        nq += 1
+        log.append({"cfg": cfg, "status": r["status"]})
+        if r["status"] == "counterexample":
+            confirmed.append({"kind": r["kind"], "op": "glexindex-sequence", "detail": "after the calls %s: glexindex(%s): %s" % ([{k: v for k, v in c.items() if k in ("start", "stop")} for c in case["cfgs"][: len(log) - 1]], cfg, r["detail"]),
+                              "signature": "glexindex-seq|%s" % r["kind"], "values": {}, "preconfirmed": True})
+            break
+    return {"case": case, "paths": len(log), "exhausted": not confirmed, "nontrivial": True, "path_log": log[:3], "confirmed": confirmed, "unconfirmed": [], "raw_issues": len(confirmed),
+            "stats": {"validity_queries": nq, "decisions": nq}, "fidelity_runs": nq, "wall_s": time.time() - t0}
+
+
 def run_case(case: Dict) -> Dict:
     t0 = time.time()
     part = case["part"]
+    if part == "Cseq":
+        return run_sequence(case)
     if part == "A":
         r = glexsort_query(case["D"], case["N"], case["graded"], case["reverse"], 2, case["timeout"])
         rep = {"case": case, "paths": 1, "exhausted": r["status"] == "proved", "nontrivial": True, "path_log": [r], "stats": {"validity_queries": 1, "solver_s": r.get("solver_s", 0), r.get("result", "unknown"): 1, "decisions": case["N"] * case["D"]},
@@ -509,6 +531,21 @@ def gen_cases(tier: str, seed: int) -> List[Dict]:
     sphere = [{"start": 0, "stop": 6, "dimensions": d, "cross_truncation": ct, "graded": g, "reverse": r, "via": "glexindex"}
               for ct in (2, 1, 0.5) for d in (4, 3) for g, r in ((True, False), (False, True))]
     take = sphere[: (6 if quick else len(sphere))] + cfgs[: 120 if quick else len(cfgs)]
+    # sequences in one process: the same numbers split differently between start and stop, and the same bounds under
+    # different norms / sort flags (a result must not depend on earlier calls)
+    seqs = [
+        [(1, [2, 3]), ([1, 2], 3), (1, [2, 3])],
+        [(0, [3, 2]), ([0, 3], 2), ([0, 3], [2, 2])],
+        [(2, [3, 4, 5]), ([2, 3, 4], 5)],
+        [(0, 3), (0, [3]), ([0], 3)],
+    ]
+    for si, seq in enumerate(seqs):
+        for ct in (1, 2, "inf"):
+            for g, r in ((False, False), (True, True)):
+                dims = max(len(x) if isinstance(x, list) else 1 for pr in seq for x in pr)
+                n += 1
+                cases.append({"id": "%s-%03d-glexindex-seq" % (PROP, n), "op": "glexindex-seq", "part": "Cseq",
+                              "cfgs": [{"start": a, "stop": b, "dimensions": dims, "cross_truncation": ct, "graded": g, "reverse": r, "via": "glexindex"} for a, b in seq]})
     for i, cfg in enumerate(take):
         if i % 7 == 0:
             cfg = dict(cfg, via="bindex")
